@@ -4,7 +4,9 @@ mod c02;
 mod c04;
 mod c05;
 mod c06;
+mod c08;
 mod c09;
+mod groute;
 mod c14;
 mod astgen;
 mod c15;
@@ -37,6 +39,7 @@ fn main() {
         "c04" => c04::main(&a),
         "c05" => c05::main(&a),
         "c06" => c06::main(&a),
+        "c08" => c08::main(&a),
         "c09" => c09::main(&a),
         "c14" => c14::main(&a),
         "c15" => c15::main(&a),
